@@ -43,7 +43,14 @@ UUIDS = [
     "123e4567-e89b-12d3-a456-426614174000",
     "00000000-0000-0000-0000-000000000000",
 ]
-DATETIMES = ["2020-01-02T03:04:05Z", "1999-12-31T23:59:59+01:00"]
+DATETIMES = [
+    "2020-01-02T03:04:05Z",
+    "1999-12-31T23:59:59+01:00",
+    # not RFC 3339, but what dateutil-style checkers are fed in practice
+    "2020-03-02 10:00 PDT",
+    "Mon, 02 Mar 2020 10:00:00 XYZT",
+    "10:00 2020-03-02",
+]
 CLASS_NAMES = [
     "Alpha",
     "Beta",
@@ -529,6 +536,9 @@ def _numeric_instance(rng, el, integer):
             val = int(val)
     if not integer and rng.random() < 0.3:
         val = float(val)
+    if rng.random() < 0.03:
+        # far beyond float precision (exact-arithmetic paths, if any)
+        val = 10 ** rng.choice([17, 23, 29, 31]) + rng.choice([0, 1, 5])
     return val
 
 
